@@ -316,6 +316,16 @@ def Dim.isBase3 (d : Dim) : Bool := d == Dim.dAngle || d == Dim.dTemperature || 
 /-- forget the identity status of the object's own unit (what pickle / deepcopy do) -/
 def PObj.loseCanon (x : PObj K) : PObj K := { x with unit := { x.unit with canon := false } }
 
+/-- the configuration that differs from `cfg` only in keeping every identity bit -/
+def keepIdentity (cfg : RouteCfg) : RouteCfg :=
+  { cfg with unitCanon := .keep, userRowCanon := .keep, dfltRowCanon := .keep }
+
+/-- the state with every identity bit set aside (unit and rows) -/
+def eraseRow (p : String × PRow K) : String × PRow K := (p.1, { p.2 with canon := true })
+def PReg.erase (R : PReg K) : PReg K := { R with rows := R.rows.map eraseRow }
+def PObj.erase (x : PObj K) : PObj K :=
+  { x with unit := { x.unit with canon := true }, reg := x.reg.erase }
+
 /-- the unit, as far as equality of units / outcomes goes (identity status set aside) -/
 def UnitV.noCanon (u : UnitV K) : UnitV K := { u with canon := true }
 
